@@ -476,6 +476,9 @@ class Options:
         # Caller will need to use process_error_codes() to re-compute these.
         del snapshot["disabled_error_codes"]
         del snapshot["enabled_error_codes"]
+        # The order of per-module sections is significant (for unstructured glob patterns
+        # the last matching section wins), but dictionaries are written with sorted keys.
+        snapshot["per_module_options"] = [[k, v] for k, v in self.per_module_options.items()]
         buf = WriteBuffer()
         write_json(buf, snapshot)
         return buf.getvalue()
